@@ -285,6 +285,7 @@ func (m *Map) loadOrStore(key, value any) (any, bool) {
 		rt.Acquire(unsafe.Pointer(&e.tok))
 		return e.v, true
 	}
+	rt.Acquire(unsafe.Pointer(&m.delTok))
 	e := &mapEntry{k: key, v: value}
 	rt.Release(unsafe.Pointer(&e.tok))
 	m.push(e)
@@ -315,8 +316,13 @@ func (m *Map) CompareAndSwap(key, old, new any) bool {
 
 //go:norace
 func (m *Map) cas(key, old, new any) bool {
-	if _, e := m.find(key); e != nil && e.v == old {
-		rt.Acquire(unsafe.Pointer(&e.tok))
+	_, e := m.find(key)
+	if e == nil {
+		rt.Acquire(unsafe.Pointer(&m.delTok))
+		return false
+	}
+	rt.Acquire(unsafe.Pointer(&e.tok)) // also a failed comparison observed a write
+	if e.v == old {
 		e.v = new
 		rt.Release(unsafe.Pointer(&e.tok))
 		return true
@@ -331,8 +337,13 @@ func (m *Map) CompareAndDelete(key, old any) bool {
 
 //go:norace
 func (m *Map) cad(key, old any) bool {
-	if _, e := m.find(key); e != nil && e.v == old {
-		rt.Acquire(unsafe.Pointer(&e.tok))
+	_, e := m.find(key)
+	if e == nil {
+		rt.Acquire(unsafe.Pointer(&m.delTok))
+		return false
+	}
+	rt.Acquire(unsafe.Pointer(&e.tok))
+	if e.v == old {
 		m.unlink(e)
 		return true
 	}
